@@ -128,3 +128,43 @@ def loopy_grammar(r, inword=None):
         tail = gast.seq(body, gast.lit('end')) if r.random() < 0.5 else body
         return [gast.call('cmd', tail)]
     return [gast.call('cmd', e(r.randint(2, 4)))]
+
+
+NAME_POOL = ['FORMAT', 'COMMAND', 'MODE', 'REMOTE', 'OPTION', 'TARGET', 'SOURCE', 'LEVEL', 'KIND', 'ACTION', 'FILTER',
+             'COLOR', 'WHEN', 'USER', 'HOST', 'PORT', 'BRANCH', 'TAG', 'REF', 'SPEC', 'ARGS', 'FLAGS', 'SUB', 'OPT',
+             'name', 'value', 'key', 'item', 'unit', 'zone', 'A', 'B', 'C', 'D', 'E', 'F', 'X1', 'X2', 'Y', 'Z',
+             'INSTALL', 'REMOVE', 'UPDATE', 'QUERY', 'pkg-name', 'sub-cmd', 'my_arg', 'LONG-NAME-HERE', 'n0', 'n1']
+
+
+def dag_grammar(r):
+    """Definitions that depend on each other as a random DAG with shared children (a definition referenced from
+    several others, siblings with dependencies of their own), names drawn from a large pool so that their order in
+    hash tables varies: what the resolution order of definitions has to get right."""
+    n = r.randint(4, 9)
+    names = r.sample(NAME_POOL, n)
+    stmts = []
+    for i, nm in enumerate(names):
+        later = names[i + 1:]
+        parts = [gast.lit('w%d' % i)]
+        if later:
+            for ref in r.sample(later, min(len(later), r.choice([1, 1, 2, 3]))):
+                parts.append(gast.nt(ref))
+                if r.random() < 0.4:
+                    parts.append(gast.lit('s%d%s' % (i, ref[:1].lower())))
+        k = r.random()
+        if len(parts) == 1:
+            body = gast.alt(gast.lit('v%d' % i), gast.lit('u%d' % i))
+        elif k < 0.6:
+            body = gast.seq(*parts)
+        elif k < 0.8:
+            body = gast.alt(*parts)
+        else:
+            body = gast.seq(parts[0], gast.opt(gast.seq(*parts[1:])))
+        stmts.append(gast.defn(nm, None, body))
+    roots = [names[0]] + r.sample(names[1:], min(len(names) - 1, r.randint(0, 2)))
+    e = gast.alt(*[gast.nt(x) for x in roots])
+    if r.random() < 0.3:
+        e = gast.seq(gast.lit('go'), e)
+    stmts.append(gast.call('cmd', e))
+    r.shuffle(stmts)
+    return stmts
